@@ -47,20 +47,50 @@ class Infra(Exception):
     pass
 
 
+def _child_setup():
+    """child: own session (so the whole tree can be killed) + die when the parent python dies"""
+    os.setsid()
+    try:
+        import ctypes
+        ctypes.CDLL('libc.so.6').prctl(1, 9)   # PR_SET_PDEATHSIG, SIGKILL
+    except Exception:
+        pass
+
+
+def _kill_tree(p):
+    import signal
+    try:
+        os.killpg(p.pid, signal.SIGKILL)
+    except Exception:
+        pass
+    try:
+        p.kill()
+    except Exception:
+        pass
+
+
 def sh(cmd, timeout=None, cwd=None, mem_gb=8, inp=None):
-    """run with memory limit; returns (rc, stdout, stderr, seconds)"""
+    """run with memory limit in its own process group; on timeout the whole group (cbmc AND the SMT solver it spawned)
+    is killed.  returns (rc, stdout, stderr, seconds)"""
     t0 = time.time()
     pre = 'ulimit -v %d; ' % (mem_gb * 1024 * 1024)
     if isinstance(cmd, list):
         cmdline = pre + 'exec ' + ' '.join(shq(c) for c in cmd)
     else:
         cmdline = pre + cmd
+    p = subprocess.Popen(['bash', '-c', cmdline], stdout=subprocess.PIPE, stderr=subprocess.PIPE, cwd=cwd,
+                         stdin=subprocess.PIPE if inp is not None else subprocess.DEVNULL, preexec_fn=_child_setup)
     try:
-        p = subprocess.run(['bash', '-c', cmdline], stdout=subprocess.PIPE, stderr=subprocess.PIPE, timeout=timeout,
-                           cwd=cwd, input=inp)
-        return p.returncode, p.stdout.decode('utf8', 'replace'), p.stderr.decode('utf8', 'replace'), time.time() - t0
-    except subprocess.TimeoutExpired as e:
-        return -999, (e.stdout or b'').decode('utf8', 'replace'), 'TIMEOUT', time.time() - t0
+        so, se = p.communicate(input=inp, timeout=timeout)
+        _kill_tree(p)  # stragglers of the group, if any
+        return p.returncode, so.decode('utf8', 'replace'), se.decode('utf8', 'replace'), time.time() - t0
+    except subprocess.TimeoutExpired:
+        _kill_tree(p)
+        try:
+            so, se = p.communicate(timeout=5)
+        except Exception:
+            so, se = b'', b''
+        return -999, (so or b'').decode('utf8', 'replace'), 'TIMEOUT', time.time() - t0
 
 
 def sh_race(cmds, timeout=None, mem_gb=8):
@@ -73,7 +103,7 @@ def sh_race(cmds, timeout=None, mem_gb=8):
         pre = 'ulimit -v %d; ' % (mem_gb * 1024 * 1024)
         fo = tempfile.TemporaryFile()
         fe = tempfile.TemporaryFile()
-        p = subprocess.Popen(['bash', '-c', pre + 'exec ' + ' '.join(shq(c) for c in cmd)], stdout=fo, stderr=fe, start_new_session=True)
+        p = subprocess.Popen(['bash', '-c', pre + 'exec ' + ' '.join(shq(c) for c in cmd)], stdout=fo, stderr=fe, preexec_fn=_child_setup)
         procs.append((p, fo, fe))
     winner = None
     while True:
@@ -91,12 +121,11 @@ def sh_race(cmds, timeout=None, mem_gb=8):
             break
         time.sleep(0.05)
     for p, fo, fe in procs:
-        if p.poll() is None:
-            try:
-                os.killpg(p.pid, signal.SIGKILL)
-            except Exception:
-                pass
-            p.wait()
+        _kill_tree(p)
+        try:
+            p.wait(timeout=5)
+        except Exception:
+            pass
     if winner is None:
         return -1, -999, '', 'TIMEOUT', time.time() - t0
     i, rc, out = winner
